@@ -68,6 +68,11 @@ def templates(n):
     T["x=f?g"] = ("assign", n["x"], None, P.If(gt0(c), call("<func>f", a), call("<func>g", b)))
     T["x=if-in-cond"] = ("assign", n["x"], None, P.If(gt0(P.If(gt0(c), a, b)), y, 3))
     T["x=if-in-then"] = ("assign", n["x"], None, P.If(gt0(c), P.If(gt0(d), a, b), y))
+    E_ = P.If(gt0(d), a, b)
+    T["x=same-if-twice"] = ("assign", n["x"], None, P.If(gt0(c), E_, P.Sum((E_, 1))))
+    T["x=same-if-twice2"] = ("assign", n["x"], None, P.Sum((P.If(gt0(c), E_, 7), P.Product((2, E_)))))
+    T["r[i]=r[i-1]+r[i]"] = ("assign-loop", n["r"], P.Sum((V("i"), 1)),
+                              P.Sum((P.Subscript(r, V("i")), P.Subscript(r, P.Sum((V("i"), 1))))))
     T["x=if-in-else"] = ("assign", n["x"], None, P.If(gt0(c), y, P.If(gt0(d), a, b)))
     T["x=f(a?b)"] = ("assign", n["x"], None, call("<func>f", P.If(gt0(c), a, b)))
     T["x=x+1"] = ("assign", n["x"], None, P.Sum((x, 1)))
@@ -206,7 +211,9 @@ def execute(ast, store):
                 idx, = st.assignee_subscript
                 store[st.assignee][E(idx)] = val
             else:
-                store[st.assignee] = val
+                # value semantics: assigning an array copies it (the passes target backends where it does; with
+                # aliasing a copy-in temporary would be indistinguishable from the original)
+                store[st.assignee] = val.copy() if hasattr(val, "copy") else val
         elif isinstance(st, AssignFunctionCall):
             args = [E(a) for a in st.parameters]
             kw = {k: E(v) for k, v in st.kw_parameters.items()}
@@ -270,8 +277,9 @@ def initial_store(spec, valuation):
 
 
 def valuations(spec):
-    uses_c = any(t in ("x=a?b", "x=f?g", "x=if-in-cond", "x=if-in-then", "x=if-in-else", "x=f(a?b)") for t, _, _, _ in spec)
-    uses_d = any(t in ("x=if-in-then", "x=if-in-else") for t, _, _, _ in spec)
+    uses_c = any(t in ("x=a?b", "x=f?g", "x=if-in-cond", "x=if-in-then", "x=if-in-else", "x=f(a?b)", "x=same-if-twice",
+                       "x=same-if-twice2") for t, _, _, _ in spec)
+    uses_d = any(t in ("x=if-in-then", "x=if-in-else", "x=same-if-twice", "x=same-if-twice2") for t, _, _, _ in spec)
     gs = {g for _, _, g, _ in spec}
     for c in ((True, False) if uses_c else (True,)):
         for d in ((True, False) if uses_d else (True,)):
